@@ -3,10 +3,12 @@ package markdown
 import (
 	"path/filepath"
 	"regexp"
+	"strconv"
 	"strings"
 
 	"github.com/zerx-lab/wordZero/pkg/document"
 	"github.com/yuin/goldmark/ast"
+	"github.com/yuin/goldmark/util"
 
 	// 添加goldmark扩展的AST节点支持
 	extast "github.com/yuin/goldmark/extension/ast"
@@ -161,7 +163,7 @@ func (r *WordRenderer) renderInlineContent(node ast.Node, para *document.Paragra
 	for child := node.FirstChild(); child != nil; child = child.NextSibling() {
 		switch n := child.(type) {
 		case *ast.Text:
-			text := string(n.Segment.Value(r.source))
+			text := r.textValue(n)
 			para.AddFormattedText(text, nil)
 			
 			// 处理软换行（单个\n）
@@ -421,13 +423,80 @@ func (r *WordRenderer) extractTextContentRecursive(node ast.Node, buf *strings.B
 	for child := node.FirstChild(); child != nil; child = child.NextSibling() {
 		switch n := child.(type) {
 		case *ast.Text:
-			buf.Write(n.Segment.Value(r.source))
+			buf.WriteString(r.textValue(n))
 		case *ast.AutoLink:
 			buf.Write(n.Label(r.source))
 		default:
 			r.extractTextContentRecursive(child, buf)
 		}
 	}
+}
+
+// textValue 返回Text节点的可见文本。goldmark在Text节点中保存的是源文本片段：
+// 普通文本中的反斜杠转义和字符引用需要按CommonMark规则还原，
+// 原始文本（代码、公式的内容）保持字面值
+func (r *WordRenderer) textValue(n *ast.Text) string {
+	value := n.Segment.Value(r.source)
+	if n.IsRaw() {
+		return string(value)
+	}
+	return unescapeText(value)
+}
+
+// unescapeText 还原反斜杠转义（\* -> *）和字符引用（&amp; &#35; &#x23;）。
+// 一次扫描完成，已还原出的字符不会被再次解释（\&amp; 得到 &amp;）
+func unescapeText(source []byte) string {
+	if !strings.ContainsAny(string(source), "\\&") {
+		return string(source)
+	}
+	var buf strings.Builder
+	limit := len(source)
+	for i := 0; i < limit; {
+		c := source[i]
+		if c == '\\' && i+1 < limit && util.IsPunct(source[i+1]) {
+			buf.WriteByte(source[i+1])
+			i += 2
+			continue
+		}
+		if c == '&' {
+			if chars, size := resolveCharacterReference(source[i:]); size > 0 {
+				buf.WriteString(chars)
+				i += size
+				continue
+			}
+		}
+		buf.WriteByte(c)
+		i++
+	}
+	return buf.String()
+}
+
+// resolveCharacterReference 解析source开头的字符引用，返回它代表的字符和引用的长度；
+// 不是合法的字符引用时长度为0
+func resolveCharacterReference(source []byte) (string, int) {
+	limit := len(source)
+	if limit < 3 || source[0] != '&' {
+		return "", 0
+	}
+	if source[1] != '#' {
+		end, ok := util.ReadWhile(source, [2]int{1, limit}, util.IsAlphaNumeric)
+		if ok && end < limit && source[end] == ';' {
+			if entity, found := util.LookUpHTML5EntityByName(string(source[1:end])); found {
+				return string(entity.Characters), end + 1
+			}
+		}
+		return "", 0
+	}
+	start, base, maxDigits, isDigit := 2, 10, 7, util.IsNumeric
+	if source[2] == 'x' || source[2] == 'X' {
+		start, base, maxDigits, isDigit = 3, 16, 6, util.IsHexDecimal
+	}
+	end, ok := util.ReadWhile(source, [2]int{start, limit}, isDigit)
+	if !ok || end >= limit || source[end] != ';' || end-start > maxDigits {
+		return "", 0
+	}
+	v, _ := strconv.ParseUint(string(source[start:end]), base, 32)
+	return string(util.ToValidRune(rune(v))), end + 1
 }
 
 // cleanText 清理文本内容
@@ -633,7 +702,7 @@ func (r *WordRenderer) renderTaskItemContent(parent ast.Node, para *document.Par
 
 		switch n := child.(type) {
 		case *ast.Text:
-			text := string(n.Segment.Value(r.source))
+			text := r.textValue(n)
 			para.AddFormattedText(text, nil)
 			
 			// 处理软换行（单个\n）
